@@ -138,3 +138,40 @@ func runSpace(rep *Report) {
 		collect(rep, s, i, ps, tw, len(rep.Failures) < 3)
 	}
 }
+
+func init() { checks["misuse"] = runMisuse }
+
+func runMisuse(rep *Report) {
+	tw, done := traceWriter()
+	defer done()
+	tot := engine.MisuseStats{}
+	for i := 0; i < *fN; i++ {
+		if !startProgram(i) {
+			continue
+		}
+		ps := progSeed(*fSeed, i)
+		r := &engine.RNG{S: ps}
+		cfg := engine.RandomConfig(r)
+		p := engine.DefaultParams()
+		p.Txs = 1 + r.Intn(8)
+		p.AbortPct = 10
+		s := engine.RunProgram(r, cfg, p)
+		if s.F != nil {
+			noTrace := s.NoTrace
+			s.NoTrace = true
+			st := s.MisuseMatrix()
+			s.NoTrace = noTrace
+			tot.Cells += st.Cells
+			tot.ErrorCells += st.ErrorCells
+			tot.OkCells += st.OkCells
+			if st.Cells > 0 {
+				s.Markers["matrix"]++
+				s.Markers["matrix2"]++
+				s.Markers["matrix3"]++
+			}
+		}
+		s.Finish()
+		collect(rep, s, i, ps, tw, len(rep.Failures) < 3)
+	}
+	rep.Extra["misuse"] = tot
+}
